@@ -1393,3 +1393,89 @@ def values_of_local(fn, e: ast.AST) -> List[ast.AST]:
         if vals:
             return sorted(vals, key=lambda v: v.lineno)
     return [e]
+
+
+def rule_base_handle_pairing(ctx, rep: Report, rid="H4"):
+    """The generated .m constructor captures a second output (`base_ptr`) and forwards it to the parent's constructor
+    exactly when the class 'has a parent'; the C++ constructor routine and the collectorInsertAndMakeBase routine
+    allocate `new SharedBase(*self)` exactly when the class 'has a parent'.  All three must ask the *same* question
+    of the class: where they differ (e.g. one of them looks through the ignore list and another does not) a handle
+    is allocated that MATLAB never receives - and never frees - or a captured output is never produced."""
+    ci, prog = mw(ctx)
+    from .prog import inline_locals, clone_expr
+    wic = prog.method("MatlabWrapper", "wrap_instantiated_class")
+    wcc = prog.method("MatlabWrapper", "wrap_class_constructors")
+    gc = prog.method("MatlabWrapper", "generate_collector_function")
+
+    def truth_subject(test: ast.AST) -> ast.AST:
+        """X for tests `X`, `X != ''`, `X is not None`, `bool(X)`"""
+        if isinstance(test, ast.Compare) and len(test.ops) == 1 and isinstance(test.ops[0], (ast.NotEq, ast.IsNot)) \
+                and isinstance(test.comparators[0], ast.Constant) and test.comparators[0].value in ("", None):
+            return test.left
+        if isinstance(test, ast.Call) and unparse(test.func) == "bool" and len(test.args) == 1:
+            return test.args[0]
+        return test
+
+    def canon(e: ast.AST, subst: Dict[str, str]) -> str:
+        txt = unparse(e)
+        for k in sorted(subst, key=len, reverse=True):
+            txt = _re.sub(rf"(?<![\w.]){_re.escape(k)}(?![\w(])", subst[k], txt)
+        return txt.replace(" ", "")
+    forms: Dict[str, Set[str]] = {}
+    # --- .m side: the parameter that decides `base_ptr`
+    call = next((c for c in ast.walk(wic) if isinstance(c, ast.Call) and unparse(c.func) == "self.wrap_class_constructors"), None)
+    if call is None:
+        raise AnalysisError("wrap_instantiated_class: call of wrap_class_constructors not found")
+    b = bind_call(wcc, call, drop_self=True)
+    cls_param_wic = func_params(wic)[1]
+    m_tests = []
+    for x in ast.walk(wcc):
+        tpl_txt = None
+        if isinstance(x, ast.Constant) and isinstance(x.value, str) and "base_ptr" in x.value:
+            # the conditional expression / if that selects this text
+            p_ = parent(x)
+            while p_ is not None and not isinstance(p_, (ast.IfExp, ast.If, ast.FunctionDef)):
+                p_ = parent(p_)
+            if isinstance(p_, ast.IfExp):
+                m_tests.append(p_.test)
+            elif isinstance(p_, ast.If):
+                m_tests.append(p_.test)
+    for t in m_tests:
+        subj = truth_subject(inline_locals(wcc, t))
+        subj = truth_subject(subj)
+        txt = unparse(subj)
+        # parameters of wrap_class_constructors -> what the caller passes
+        sub = {pn: "(" + unparse(av) + ")" for pn, av in b.items()}
+        c1 = canon(subj, sub)
+        c1 = c1.replace(f"({cls_param_wic}.", "(CLS.").replace(f"({cls_param_wic})", "(CLS)").replace(f"{cls_param_wic}.", "CLS.")
+        c1 = _re.sub(r"^\((.*)\)$", r"\1", c1)
+        forms.setdefault(".m constructor (base_ptr captured / forwarded)", set()).add(c1)
+    # --- C++ side: guards of every `new SharedBase` emission
+    mapdef = next((st for st in walk_no_nested(gc) if isinstance(st, ast.Assign) and isinstance(st.targets[0], ast.Name)
+                   and "wrapper_map" in unparse(st.value)), None)
+    mapvar = mapdef.targets[0].id if mapdef is not None else None
+    mapexpr = unparse(mapdef.value) if mapdef is not None else None
+    n_cpp = 0
+    for x in ast.walk(gc):
+        if isinstance(x, ast.Constant) and isinstance(x.value, str) and "new SharedBase" in x.value:
+            st = stmt_of(x)
+            gs = [ast.parse(t, mode="eval").body for t, pol in guards_of(st, gc, include_exits=False) if pol]
+            inner = [g for g in gs if "parent" in unparse(inline_locals(gc, g))]
+            role = next((unparse(g) for g in gs if "'constructor'" in unparse(g) or "'collectorInsertAndMakeBase'" in unparse(g)), "?")
+            label = "C++ constructor routine" if "'constructor'" in role else ("C++ collectorInsertAndMakeBase routine" if "collectorInsert" in role else f"C++ routine under {role}")
+            n_cpp += 1
+            if not inner:
+                forms.setdefault(label, set()).add("<unconditional>")
+            for g in inner:
+                subj = truth_subject(truth_subject(inline_locals(gc, g)))
+                c2 = unparse(subj).replace(" ", "")
+                for base_ in ([mapvar, mapexpr] if mapvar else []):
+                    c2 = c2.replace(f"{base_}[1]".replace(" ", ""), "CLS")
+                forms.setdefault(label, set()).add(c2)
+    flat = {k: sorted(v) for k, v in forms.items()}
+    allf = {f for v in forms.values() for f in v}
+    rep.add(rid, "base handle:the .m constructor and both C++ routines decide 'has a parent' by the same test of the class",
+            len(allf) == 1 and len(forms) >= 3 and n_cpp >= 2,
+            f"tests found: {flat}: where they disagree for some class (a parent on the ignore list, say) a SharedBase handle is "
+            f"allocated that no MATLAB object receives, or the .m constructor waits for an output that is not produced",
+            f"{ci.mod.rel}:{gc.lineno}")
